@@ -439,6 +439,9 @@ func (t Table) Lookup(req *http.Request, trace string, pick picker, match matche
 					target.RedirectURL.Host == req.Host &&
 					target.RedirectURL.Path == req.URL.Path {
 					log.Print("[INFO] Skipping redirect with same scheme, host and path")
+					// a skipped redirect is not the answer: without a route on
+					// one of the remaining hosts the request has no route
+					target = nil
 					continue
 				}
 			}
